@@ -1,7 +1,7 @@
 #!/bin/sh
 # tools/run_all.sh [tier] [seed]: run every check, print one line each
 tier=${1:-quick}; seed=${2:-0}
-cd /verif
+cd "$(dirname "$0")/.."
 for i in 01 02 03 04 05 06 07 08 09 10 11 12 13 14 15 16 17 18 19 20; do
   s=$(date +%s); out=$(VERIF_SEED=$seed ./check C$i --tier $tier 2>&1); rc=$?; e=$(date +%s)
   echo "C$i rc=$rc $((e-s))s $(echo "$out" | grep -E '^\[C..\] (HELD|tier)|^VIOLATION|^INCONCLUSIVE|^BROKEN' | tail -1 | cut -c1-160)"
